@@ -7,7 +7,7 @@ package database
 // ---------------------------------------------------------------------------
 // Loading (C15, C10). loadsOK(path) names "this file currently loads": a trusted link between two
 // loads of the same path within one operation (a stable file system).
-//@ pure func loadsOK(path string) bool = fileReadable(path) && fileDecodes(path)
+//@ pure func loadsOK(path string) bool = fileReadable(path) && fileDecodes(path, "[]database.Command")
 
 // Index construction: the command list itself is never touched (functional contracts: C03).
 //@ func (*Database).BuildUniversalIndex
@@ -55,7 +55,7 @@ package database
 //@   ensures[C15.load-no-typed-nil] (istype(result1, *errors.AppError) ==> astype(result1, *errors.AppError) != nil) && !istype(result1, *errors.DatabaseError)
 //@   ensures[C15.load-missing] fileMissing(filename) ==> result1 != nil && errorsIs(result1, fs.ErrNotExist) && istype(result1, *errors.AppError) && astype(result1, *errors.AppError) != nil && astype(result1, *errors.AppError).Cause != nil && os.IsNotExist(astype(result1, *errors.AppError).Cause)
 //@   ensures[C15.load-perm] filePermDenied(filename) ==> result1 != nil && errorsIs(result1, fs.ErrPermission)
-//@   ensures[C15.load-stable] (result1 == nil) <==> loadsOK(filename)
+//@   ensures[C10.undecodable-is-an-error+C15.load-stable] (result1 == nil) <==> loadsOK(filename)
 //@   ensures[C01.load-inv+C03.load-inv] result1 == nil ==> dbInv(result0)
 //@   ensures[C03.load-index-current] result1 == nil ==> result0.uIndex != nil && result0.uIndex.N == len(result0.Commands) && idxOK(result0)
 
@@ -367,6 +367,7 @@ package database
 //@   ensures[C01.fuzzy-score-range] forall k int :: 0 <= k && k < len(result) ==> 0.0 <= result[k].Score && result[k].Score <= 1.0
 //@   ensures[C04.fuzzy-gates] gatesOK(result, options)
 //@   ensures[C07.fuzzy-threshold] options.FuzzyThreshold != 0 ==> (forall k int :: 0 <= k && k < len(result) ==> result[k].Score >= normFuzzy(options.FuzzyThreshold))
+//@   hint[C07.pattern-is-the-query] fuzzyFind query == strings.TrimSpace(old(query))
 //@   hint[C07.best-first-final] return forall a, b int :: 0 <= a && a < b && b < len(results) ==> (exists ja, jb int :: 0 <= ja && ja < jb && jb < len(matches) && matches[ja].Index == cmdIdx(db, results[a].Command) && matches[jb].Index == cmdIdx(db, results[b].Command))
 //@   hint[C07.never-starved] return options.FuzzyThreshold == 0 && options.Limit > 0 && len(results) == 0 ==> (forall j int :: 0 <= j && j < len(matches) ==> !(platOK(&db.Commands[matches[j].Index], options) && pipeOK(&db.Commands[matches[j].Index], options)))
 //@ loop 1
@@ -589,6 +590,7 @@ package database
 //@   modifies targets[*]
 //@   ensures[C07.fuzzy-find] fresh(result) && (forall k int :: 0 <= k && k < len(result) ==> 0 <= result[k].Index && result[k].Index < len(targets))
 //@   ensures[C07.fuzzy-find-order] forall a, b int :: 0 <= a && a < b && b < len(result) ==> result[a].Score >= result[b].Score && result[a].Index != result[b].Index
+//@   hint[C07.pattern-passed-on] Find pattern == old(pattern)
 //@ loop 1
 //@   invariant forall k int :: 0 <= k && k < $i ==> nulFree(targets[k])
 
@@ -623,7 +625,7 @@ package database
 //@ func (*CachedDatabase).InvalidateCache
 //@   requires cacheWF(cdb)
 //@   modifies cdb.cacheManager.searchCache.cache.*, ghost(llen), ghost(lof), ghost(lstale)
-//@   ensures[C05.invalidate-empties] cacheWF(cdb) && len(cdb.cacheManager.searchCache.cache.items) == 0
+//@   ensures[C05.invalidate-empties+C01.invalidate-empties] cacheWF(cdb) && len(cdb.cacheManager.searchCache.cache.items) == 0
 
 //@ func (*CachedDatabase).EnableCache
 //@   requires cacheWF(cdb)
@@ -640,7 +642,7 @@ package database
 //@ func (*CachedDatabase).UpdateDatabase
 //@   requires cacheWF(cdb) && (cdb.Database.embeddingIndex != nil ==> embedding.wfEmb(cdb.Database.embeddingIndex))
 //@   modifies cdb.Database.*, cdb.cacheManager.searchCache.cache.*, ghost(llen), ghost(lof), ghost(lstale)
-//@   ensures[C05.update-empties-cache] len(cdb.cacheManager.searchCache.cache.items) == 0
+//@   ensures[C05.update-empties-cache+C01.update-empties-cache] len(cdb.cacheManager.searchCache.cache.items) == 0
 //@   ensures[C03.update-fresh] cdb.Database.Commands == commands && idxOK(cdb.Database) && dbInv(cdb.Database) && cdbWF(cdb)
 
 // Monitoring wrappers: the pre-lookup only touches recency and counters (contract of
